@@ -65,42 +65,44 @@ theorem foldUntil_partition_inv (hk : KindInv kind cmp P) (p : K → V → Bool)
       exact ⟨pm, hk.put _ _ _ _ pu e2⟩
 
 theorem step_inv (hk : KindInv kind cmp P) (eqVal : V → V → Bool) (s s' : State K V) (op : Op K V)
-    (o : Out K V) (hs : P s.1 ∧ P s.2) (he : step kind cmp eqVal s op = .ok (s', o)) : P s'.1 ∧ P s'.2 := by
-  obtain ⟨s1, s2⟩ := s
-  obtain ⟨p1, p2⟩ := hs
+    (o : Out K V) (hs : P s.1 ∧ P s.2.1 ∧ P s.2.2) (he : step kind cmp eqVal s op = .ok (s', o)) :
+    P s'.1 ∧ P s'.2.1 ∧ P s'.2.2 := by
+  obtain ⟨s1, s2, s3⟩ := s
+  obtain ⟨p1, p2, p3⟩ := hs
   cases op with
   | put k v =>
     simp only [step] at he
     obtain ⟨a, e0, e1⟩ := bind_eq_ok he
     cases e1
-    exact ⟨hk.put _ _ _ _ p1 e0, p2⟩
+    exact ⟨hk.put _ _ _ _ p1 e0, p2, p3⟩
   | delete k =>
     simp only [step] at he
     obtain ⟨⟨a, r⟩, e0, e1⟩ := bind_eq_ok he
     cases e1
-    exact ⟨hk.delete _ _ _ _ p1 e0, p2⟩
+    exact ⟨hk.delete _ _ _ _ p1 e0, p2, p3⟩
   | deleteMin =>
     simp only [step] at he
     obtain ⟨⟨a, r⟩, e0, e1⟩ := bind_eq_ok he
     cases e1
-    exact ⟨hk.deleteMin _ _ _ p1 e0, p2⟩
+    exact ⟨hk.deleteMin _ _ _ p1 e0, p2, p3⟩
   | deleteMax =>
     simp only [step] at he
     obtain ⟨⟨a, r⟩, e0, e1⟩ := bind_eq_ok he
     cases e1
-    exact ⟨hk.deleteMax _ _ _ p1 e0, p2⟩
-  | deleteAll => cases he; exact ⟨hk.nil, p2⟩
-  | swap => cases he; exact ⟨p2, p1⟩
+    exact ⟨hk.deleteMax _ _ _ p1 e0, p2, p3⟩
+  | deleteAll => cases he; exact ⟨hk.nil, p2, p3⟩
+  | swap => cases he; exact ⟨p2, p1, p3⟩
+  | swapC => cases he; exact ⟨p3, p2, p1⟩
   | select i =>
     simp only [step] at he
     obtain ⟨a, e0, e1⟩ := bind_eq_ok he
     cases e1
-    exact ⟨p1, p2⟩
+    exact ⟨p1, p2, p3⟩
   | selectMatch p =>
     simp only [step] at he
     obtain ⟨m, e0, e1⟩ := bind_eq_ok he
     cases e1
-    refine ⟨p1, ?_⟩
+    refine ⟨p1, ?_, p3⟩
     unfold selectMatch at e0
     by_cases hn : s1.isNil = true
     · cases s1 with
@@ -115,16 +117,16 @@ theorem step_inv (hk : KindInv kind cmp P) (eqVal : V → V → Bool) (s s' : St
     refine ⟨p1, ?_⟩
     unfold partitionMatch at e0
     rw [traverse_eq _ (by decide)] at e0
-    exact (foldUntil_partition_inv hk p _ _
-      (fun m u hm => by cases hm; exact ⟨hk.nil, hk.nil⟩) m u e0).1
+    exact foldUntil_partition_inv hk p _ _
+      (fun m u hm => by cases hm; exact ⟨hk.nil, hk.nil⟩) m u e0
   | size | isEmpty | height | get _ | min | max | floor _ | ceiling _ | rank _ | range _ _
   | rangeSize _ _ | all | allUntil _ | traverse _ _ | equal | equalOther | anyMatch _ | allMatch _
   | firstMatch _ =>
-    cases he; exact ⟨p1, p2⟩
+    cases he; exact ⟨p1, p2, p3⟩
 
 theorem runFrom_inv (hk : KindInv kind cmp P) (eqVal : V → V → Bool) :
-    ∀ (ops : List (Op K V)) (s s' : State K V) (outs : List (Out K V)), (P s.1 ∧ P s.2) →
-      runFrom kind cmp eqVal s ops = .ok (s', outs) → P s'.1 ∧ P s'.2
+    ∀ (ops : List (Op K V)) (s s' : State K V) (outs : List (Out K V)), (P s.1 ∧ P s.2.1 ∧ P s.2.2) →
+      runFrom kind cmp eqVal s ops = .ok (s', outs) → P s'.1 ∧ P s'.2.1 ∧ P s'.2.2
   | [], s, s', outs, hs, he => by cases he; exact hs
   | op :: ops, s, s', outs, hs, he => by
     simp only [runFrom] at he
